@@ -7,6 +7,7 @@
 use vstd::prelude::*;
 use std::collections::HashSet;
 use std::collections::BTreeMap;
+use std::collections::HashMap;
 
 verus! {
 
